@@ -6,11 +6,12 @@
 // What is extracted (and used by RulioModel/Breaker.lean, so that the theorems of Props/C20.lean are
 // about what the Go source says *now*):
 //
-//   - the constant breakerTicks
-//   - OutboundBreaker.Do: the admission test, the index incremented on admission, whether f runs /
-//     what is returned, and the partition of Do's steps into critical sections (Lock .. Unlock)
-//   - OutboundBreaker.slide: elapsed time, resolution, raw tick count, clamp, copy offsets, zeroed range,
-//     the (unconditional) assignment of b.updated
+//   - the constant breakerTicks; OutboundBreaker.init: the tests that reject (limit, interval) before anything is written
+//   - OutboundBreaker.Do: the admission test, the index incremented on admission, what `b.updated` becomes on admission,
+//     whether f runs / what is returned, and the partition of Do's steps into critical sections (Lock .. Unlock)
+//   - OutboundBreaker.slide: elapsed time, resolution, raw tick count, clamp, copy offsets, zeroed range, and the value
+//     of b.updated when slide returns (symbolic execution of the clamp's branches and of a trailing assignment)
+//   - OutboundBreaker.Status / Summary: they slide under the lock and write nothing else (a poll)
 //   - Throttle.Submit: tooMany, the guard of pending++, the overflow return, the decrement, the retry loop
 //   - SimpleBreaker.Do: when f runs, what is reported
 //   - Location.AtCapacity and whether AddFact / AddRule test it before they reach the state
@@ -93,6 +94,14 @@ func lean(e ast.Expr, env map[string]string) string {
 		if id, ok := x.Fun.(*ast.Ident); ok && (id.Name == "int" || id.Name == "int64") && len(x.Args) == 1 {
 			return lean(x.Args[0], env)
 		}
+		if src(x.Fun) == "time.Duration" && len(x.Args) == 1 { // a conversion: durations are nanoseconds
+			return lean(x.Args[0], env)
+		}
+		if sel, ok := x.Fun.(*ast.SelectorExpr); ok && sel.Sel.Name == "Add" && len(x.Args) == 1 { // time.Time.Add
+			if v, ok := env[src(sel.X)]; ok {
+				return "(" + v + " + " + lean(x.Args[0], env) + ")"
+			}
+		}
 	case *ast.UnaryExpr:
 		if x.Op == token.NOT {
 			return "(!" + lean(x.X, env) + ")"
@@ -170,13 +179,30 @@ func main() {
 	if !found {
 		die("const breakerTicks not found")
 	}
-	// init: ticks := breakerTicks; b.ticks = ticks; b.counts = make([]int64, ticks)
+	// init: the rejecting tests, then ticks := breakerTicks; b.ticks = ticks; b.counts = make([]int64, ticks)
 	{
 		fd := method(bf, "OutboundBreaker", "init")
 		want := []string{"ticks := breakerTicks", "b.limit = limit", "b.interval = interval", "b.ticks = ticks", "b.counts = make([]int64, ticks)"}
 		have := map[string]bool{}
+		var rejects, docs []string
+		wrote := false
 		for _, s := range fd.Body.List {
 			have[src(s)] = true
+			if is, ok := s.(*ast.IfStmt); ok {
+				last, isRet := is.Body.List[len(is.Body.List)-1].(*ast.ReturnStmt)
+				if is.Init != nil || is.Else != nil || !isRet || len(last.Results) != 2 || src(last.Results[0]) != "nil" {
+					die("OutboundBreaker.init: unexpected if statement `%s`", src(is))
+				}
+				if wrote {
+					die("OutboundBreaker.init: the test `%s` comes after the breaker has been written (a refused Adjust would leave it half changed)", src(is.Cond))
+				}
+				rejects = append(rejects, lean(is.Cond, map[string]string{"limit": "limit", "interval": "interval", "breakerTicks": "breakerTicks"}))
+				docs = append(docs, src(is.Cond))
+				continue
+			}
+			if strings.HasPrefix(src(s), "b.") {
+				wrote = true
+			}
 		}
 		for _, w := range want {
 			if !have[w] {
@@ -184,6 +210,12 @@ func main() {
 			}
 		}
 		o.def("`init`: `ticks := breakerTicks; b.ticks = ticks; b.counts = make([]int64, ticks)`", "def initTicks : Nat := breakerTicks")
+		body := "false"
+		if len(rejects) > 0 {
+			body = "(" + strings.Join(rejects, " || ") + ")"
+		}
+		o.def("`init` (so `NewOutboundBreaker` and `Adjust`) returns an error, before it writes any field, when: `"+strings.Join(docs, "` or `")+"`",
+			"def initRejects (limit interval : Int) : Bool := "+body)
 	}
 
 	// ---------------------------------------------------------------- OutboundBreaker.Do
@@ -233,16 +265,26 @@ func main() {
 			default:
 				if is, ok := s.(*ast.IfStmt); ok && is.Init == nil && is.Else == nil {
 					c := src(is.Cond)
-					if c == "closed" && len(is.Body.List) == 1 {
+					if c == "closed" && len(is.Body.List) >= 1 {
 						inc, ok := is.Body.List[0].(*ast.IncDecStmt)
 						if !ok || inc.Tok != token.INC {
-							die("Do: body of `if closed` is not an increment: %s", src(is.Body))
+							die("Do: body of `if closed` does not start with an increment: %s", src(is.Body))
 						}
 						ix, ok := inc.X.(*ast.IndexExpr)
 						if !ok || src(ix.X) != "b.counts" {
 							die("Do: increment target is not b.counts[..]: %s", src(inc.X))
 						}
-						o.def("`Do`: `if closed { "+src(inc)+" }`", "def incrIndex : Nat := "+lean(ix.Index, nil))
+						o.def("`Do`: `if closed { "+src(inc)+" ... }`", "def incrIndex : Nat := "+lean(ix.Index, nil))
+						upd, doc := "updated", "`Do`: `if closed {...}` does not assign `b.updated`"
+						for _, s2 := range is.Body.List[1:] {
+							rhs, ok := assignRHS(s2, "b.updated")
+							if !ok {
+								die("Do: unexpected statement in `if closed`: %s", src(s2))
+							}
+							upd = lean(rhs, map[string]string{"now": "now", "b.updated": upd})
+							doc = "`Do`: `if closed { ...; " + src(s2) + " }`"
+						}
+						o.def(doc+" — the value of `b.updated` after an admission", "def admitUpdated (updated now : Nat) : Nat := "+upd)
 						emit(".incr")
 						continue
 					}
@@ -278,8 +320,8 @@ func main() {
 	{
 		fd := method(bf, "OutboundBreaker", "slide")
 		st := fd.Body.List
-		if len(st) != 7 {
-			die("slide: expected 7 statements, found %d", len(st))
+		if len(st) != 6 && len(st) != 7 {
+			die("slide: expected 6 or 7 statements, found %d", len(st))
 		}
 		if src(st[0]) != "ns := now.Sub(b.updated).Nanoseconds()" {
 			die("slide: unexpected first statement `%s`", src(st[0]))
@@ -297,16 +339,44 @@ func main() {
 		}
 		o.def("`slide`: `"+src(st[2])+"`", "def rawTicks (ns resolution : Nat) : Nat := "+
 			lean(rhs, map[string]string{"ns": "ns", "resolution": "resolution"}))
+		// the clamp: symbolic execution of both branches over the two variables they may assign (ticks, b.updated)
 		is, ok := st[3].(*ast.IfStmt)
-		if !ok || is.Else != nil || is.Init != nil || len(is.Body.List) != 1 {
+		if !ok || is.Init != nil {
 			die("slide: the clamp `if len(b.counts) < ticks {...}` has an unexpected shape: `%s`", src(st[3]))
 		}
-		rhs, ok = assignRHS(is.Body.List[0], "ticks")
-		if !ok {
-			die("slide: the clamp does not assign ticks: `%s`", src(is.Body))
+		type sym struct{ ticks, upd string }
+		symEnv := func(c sym) map[string]string {
+			return map[string]string{"len(b.counts)": "len", "ticks": c.ticks, "b.updated": c.upd, "now": "now", "resolution": "resolution"}
 		}
-		env := map[string]string{"len(b.counts)": "len", "ticks": "ticks"}
-		o.def("`slide`: `"+src(st[3])+"`", "def clampTicks (len ticks : Nat) : Nat := if "+lean(is.Cond, env)+" then "+lean(rhs, env)+" else ticks")
+		branch := func(stmts []ast.Stmt) sym {
+			cur := sym{"ticks", "updated"}
+			for _, s := range stmts {
+				if r, ok := assignRHS(s, "ticks"); ok {
+					cur.ticks = lean(r, symEnv(cur))
+				} else if r, ok := assignRHS(s, "b.updated"); ok {
+					cur.upd = lean(r, symEnv(cur))
+				} else {
+					die("slide: unexpected statement in the clamp: `%s`", src(s))
+				}
+			}
+			return cur
+		}
+		thenS := branch(is.Body.List)
+		elseS := sym{"ticks", "updated"}
+		if is.Else != nil {
+			eb, ok := is.Else.(*ast.BlockStmt)
+			if !ok {
+				die("slide: the clamp has an `else if`: `%s`", src(st[3]))
+			}
+			elseS = branch(eb.List)
+		}
+		cond := lean(is.Cond, symEnv(sym{"ticks", "updated"}))
+		if strings.Contains(thenS.ticks+elseS.ticks, "now") || strings.Contains(thenS.ticks+elseS.ticks, "updated") {
+			die("slide: the clamped tick count depends on the clock: `%s`", src(st[3]))
+		}
+		o.def("`slide`: `"+src(st[3])+"` — the tick count after the clamp", "def clampTicks (len ticks : Nat) : Nat := if "+cond+" then "+thenS.ticks+" else "+elseS.ticks)
+		updExpr := "(if " + cond + " then " + thenS.upd + " else " + elseS.upd + ")"
+		updDoc := "`slide`: the value of `b.updated` when slide returns, from the branches of the clamp (`ticks` = the tick count before the clamp)"
 		// copy
 		es, ok := st[4].(*ast.ExprStmt)
 		var call *ast.CallExpr
@@ -343,14 +413,61 @@ func main() {
 		}
 		o.def("`slide`: `"+src(st[5])+"` — first index", "def zeroLo (ticks : Nat) : Nat := "+lean(lo, map[string]string{"ticks": "ticks"}))
 		o.def("`slide`: the loop condition", "def zeroCond (i ticks : Nat) : Bool := "+lean(fs.Cond, map[string]string{"i": "i", "ticks": "ticks"}))
-		// updated
-		rhs, ok = assignRHS(st[6], "b.updated")
-		if !ok {
-			die("slide: the last statement is not an (unconditional) assignment to b.updated: `%s`", src(st[6]))
+		// a trailing top-level assignment to b.updated overrides what the branches did
+		if len(st) == 7 {
+			rhs, ok = assignRHS(st[6], "b.updated")
+			if !ok {
+				die("slide: the last statement is not an assignment to b.updated: `%s`", src(st[6]))
+			}
+			updExpr = lean(rhs, map[string]string{"now": "now", "b.updated": updExpr, "ticks": "(clampTicks len ticks)", "resolution": "resolution", "len(b.counts)": "len"})
+			updDoc = "`slide`: `" + src(st[6]) + "` — the last, top-level statement of slide, executed on every call: the value of `b.updated` when slide returns"
 		}
-		o.def("`slide`: `"+src(st[6])+"` — a top-level statement of slide, executed on every call", "def slideUpdatedUnconditional : Bool := true")
-		o.def("`slide`: the value assigned to `b.updated`", "def slideUpdated (updated now : Nat) : Nat := "+
-			lean(rhs, map[string]string{"now": "now", "b.updated": "updated"}))
+		o.def(updDoc, "def slideUpdated (updated now len ticks resolution : Nat) : Nat := "+updExpr)
+	}
+
+	// ---------------------------------------------------------------- Status, Summary: polls
+	{
+		for _, name := range []string{"Status", "Summary"} {
+			fd := method(bf, "OutboundBreaker", name)
+			locked, slid := false, false
+			for _, s := range fd.Body.List {
+				switch {
+				case isCall(s, "b.Lock()"):
+					locked = true
+				case isCall(s, "b.Unlock()"):
+					locked = false
+				case isCall(s, "b.slide(time.Now())"):
+					if !locked || slid {
+						die("OutboundBreaker.%s: b.slide(time.Now()) outside the lock, or twice", name)
+					}
+					slid = true
+				default:
+					ast.Inspect(s, func(n ast.Node) bool {
+						switch x := n.(type) {
+						case *ast.AssignStmt:
+							for _, l := range x.Lhs {
+								if strings.HasPrefix(src(l), "b.") {
+									die("OutboundBreaker.%s writes the breaker: `%s`", name, src(x))
+								}
+							}
+						case *ast.IncDecStmt:
+							if strings.HasPrefix(src(x.X), "b.") {
+								die("OutboundBreaker.%s writes the breaker: `%s`", name, src(x))
+							}
+						case *ast.CallExpr:
+							if f := src(x.Fun); strings.HasPrefix(f, "b.") && f != "b.interval.Nanoseconds" {
+								die("OutboundBreaker.%s calls `%s`", name, f)
+							}
+						}
+						return true
+					})
+				}
+			}
+			if !slid {
+				die("OutboundBreaker.%s does not call b.slide(time.Now())", name)
+			}
+		}
+		o.def("`Status` and `Summary`: `b.Lock(); b.slide(time.Now()); ...; b.Unlock()` and no other write to the breaker: a poll is one `slide`", "def statusIsSlide : Bool := true")
 	}
 
 	// ---------------------------------------------------------------- SimpleBreaker.Do
@@ -404,7 +521,7 @@ func main() {
 					die("Submit: unexpected if in the first critical section: `%s`", src(is))
 				}
 				o.def("`Submit`: `if "+src(is.Cond)+" { t.pending++ }`", "def incrGuard (tooMany disabled : Bool) : Bool := "+
-					lean(is.Cond, map[string]string{"tooMany": "tooMany", "disabled": "disabled"}))
+					lean(is.Cond, map[string]string{"tooMany": "tooMany", "disabled": "disabled", "t.disabled": "disabled"}))
 				sawIncr = true
 			}
 		}
